@@ -133,3 +133,97 @@ Theorem P_refreshed_server_never_hangs : forall f sv0 s p acc egr rows,
   calc_allnodes d (conn_set d s) p rows <> Hang.
 Proof. exact refreshed_server_never_hangs. Qed.
 Print Assumptions P_refreshed_server_never_hangs.
+
+(* ---- THE SKIP RULES ARE THE CODE'S (Proofs/LoaderGuardsTie.v): the conditions under which the loaders drop a trip, a row of
+   a per-stop file or a whole per-stop file, and the order of the emptiness tests behind the data status, are regenerated from
+   the CURRENT C++ sources into gen/LoaderGuards.v (tools/gen_loader_guards.py) on every run; the model's loaders are proved
+   equal to the loaders instantiated with these generated fragments, so a changed operator, a dropped test, a shifted index or
+   two swapped tests in trips_and_connections_cache_fetcher.cpp / nodes_cache_fetcher.cpp / transit_data.cpp stops this file
+   from compiling (D13, D14, D15 and the stop-time count repair all lived in exactly these rules) ---- *)
+From TrV Require Import Proofs.LoaderGuardsTie.
+From TrV Require gen.LoaderGuards.
+Module LG := TrV.gen.LoaderGuards.
+Local Open Scope bool_scope.
+
+(* one trip entry: unknown path, the count test, the stop-time order test (D13), in source order, then the trip *)
+Theorem C17_trip_skip_rules_are_code : forall paths service m,
+  load_trip paths service m =
+  match tm_id m, tm_path m with
+  | Some tid, Some pid =>
+      let found := find (fun p => Nat.eqb (p_id p) pid) paths in
+      if LG.gen_trip_unknown_path (is_some found) then Some None else
+      let np := match found with Some p => length (p_nodes p) | None => 0%nat end in
+      let n := length (tm_arr m) in
+      if LG.gen_trip_counts_bad n np (length (tm_dep m)) (length (tm_cb m)) (length (tm_cu m)) then Some None else
+      if LG.gen_trip_order_skip (order_loop_code (tm_arr m) (tm_dep m) n (length (tm_dep m))) then Some None else
+      Some (Some {| t_id := tid; t_path := pid; t_service := service;
+                    t_times := zip_times (tm_arr m) (firstn n (tm_dep m)) (firstn n (tm_cb m)) (firstn n (tm_cu m)) |})
+  | _, _ => None
+  end.
+Proof. exact load_trip_tie. Qed.
+Print Assumptions C17_trip_skip_rules_are_code.
+
+(* the stop-time loop of the D13 repair (start value, loop condition, per-index test on dep[i], arr[i+1], arr[i], flag) *)
+Theorem C17_stop_time_order_loop_is_code : forall arr dep n nd,
+  trip_times_in_order arr dep n =
+  order_loop (fun i => LG.gen_trip_order_cond i n nd)
+             (fun i => LG.gen_trip_order_bad (nth i dep 0) (nth (S i) dep 0) (nth i arr 0) (nth (S i) arr 0) i)
+             LG.gen_trip_order_flag_init LG.gen_trip_order_flag_on_bad n LG.gen_trip_order_start.
+Proof. exact trip_times_in_order_code. Qed.
+Print Assumptions C17_stop_time_order_loop_is_code.
+
+Theorem C17_stop_time_order_test_is_code : forall arr dep n nd,
+  trip_times_in_order arr dep n = true <->
+  (forall i, LG.gen_trip_order_cond i n nd = true ->
+             LG.gen_trip_order_bad (nth i dep 0) (nth (S i) dep 0) (nth i arr 0) (nth (S i) arr 0) i = false).
+Proof. exact trip_times_in_order_code_iff. Qed.
+Print Assumptions C17_stop_time_order_test_is_code.
+
+Theorem C17_unknown_service_skip_is_code : forall sv services,
+  memb sv services = negb (LG.gen_sched_unknown_service (memb sv services)).
+Proof. exact sched_skip_code. Qed.
+Print Assumptions C17_unknown_service_skip_is_code.
+
+(* a row of a per-stop file is kept iff neither generated `continue` test fires (unknown stop; negative time, D15) *)
+Theorem C17_stop_file_skip_rules_are_code : forall known n t d,
+  (memb n known && (0 <=? t)) = negb (LG.gen_node_unknown (map_count n known)) && negb (LG.gen_node_time_bad t d).
+Proof. exact node_keep_code. Qed.
+Print Assumptions C17_stop_file_skip_rules_are_code.
+
+Theorem C17_stop_file_rows_are_code : forall known l,
+  node_rows known l = node_rows_code known l /\ node_rows_p known l = node_rows_p_code known l.
+Proof. exact (fun known l => conj (node_rows_tie known l) (node_rows_p_tie known l)). Qed.
+Print Assumptions C17_stop_file_rows_are_code.
+
+(* D14: a per-stop file with fewer travel times or distances than stops (three parallel lists in the C++, mapped to a
+   garbled file with an empty prefix in the model) stops the loading with the generated return code, nothing pushed *)
+Theorem C17_stop_file_length_test_is_code : forall s known t rest files fp rfp,
+  LG.gen_stop_lists_bad (length (sl_uuids s)) (length (sl_times s)) (length (sl_dists s)) = true ->
+  files t = stop_file_of_lists s ->
+  load_node_files_p known (t :: rest) files fp rfp = ((fp, rfp), RC_EBADMSG) /\
+  rc_int RC_EBADMSG = Some LG.gen_stop_lists_bad_ret /\
+  load_node_files known (t :: rest) files fp rfp = NLBadMsg.
+Proof. exact stop_file_lists_bad_code. Qed.
+Print Assumptions C17_stop_file_length_test_is_code.
+
+Theorem C17_stop_file_lists_in_range_is_code : forall s j,
+  LG.gen_stop_lists_bad (length (sl_uuids s)) (length (sl_times s)) (length (sl_dists s)) = false ->
+  LG.gen_stop_rows_start = 0%nat /\
+  (LG.gen_stop_rows_cond j (length (sl_uuids s)) = true ->
+   exists msg, stop_file_of_lists s = FDecoded msg /\ length msg = length (sl_uuids s) /\
+               nth_error msg j = Some {| fm_node := nth j (sl_uuids s) None; fm_time := nth j (sl_times s) 0; fm_dist := nth j (sl_dists s) 0 |}).
+Proof. exact stop_file_lists_ok_code. Qed.
+Print Assumptions C17_stop_file_lists_in_range_is_code.
+
+(* the data status: the emptiness tests in source order, the first that holds decides; codes = the enumerators *)
+Theorem C17_data_status_is_code : forall z,
+  data_status z = LG.gen_data_status (z_agencies z) (z_services z) (z_nodes z) (z_lines z) (z_paths z) (z_scenarios z) (z_trips z).
+Proof. exact data_status_code. Qed.
+Print Assumptions C17_data_status_is_code.
+
+Theorem C17_status_codes_are_code :
+  LG.gen_ST_READY = ST_READY /\ LG.gen_ST_NO_AGENCIES = ST_NO_AGENCIES /\ LG.gen_ST_NO_LINES = ST_NO_LINES /\
+  LG.gen_ST_NO_PATHS = ST_NO_PATHS /\ LG.gen_ST_NO_SERVICES = ST_NO_SERVICES /\ LG.gen_ST_NO_SCENARIOS = ST_NO_SCENARIOS /\
+  LG.gen_ST_NO_SCHEDULES = ST_NO_SCHEDULES /\ LG.gen_ST_NO_NODES = ST_NO_NODES.
+Proof. exact status_codes_code. Qed.
+Print Assumptions C17_status_codes_are_code.
